@@ -41,8 +41,8 @@ ASSUMPTIONS = [
   "affects it was sent since the last barrier request; pairing, xid, order and reply type are always judged",
   "where OF 1.0 names no error (port/flow stats for an unknown port or table, queue stats, output to a port that does not exist, "
   "set-config with undefined flag bits, packet-out with nothing to send) one reply or one error / nothing or one error is accepted",
-  "a vendor action may be refused as BAD_TYPE or BAD_VENDOR, a vendor stats request as BAD_STAT or BAD_VENDOR, an unknown or used buffer as "
-  "BUFFER_UNKNOWN or BUFFER_EMPTY; a flow-mod with an unknown action type may be refused as BAD_ACTION or FLOW_MOD_FAILED/UNSUPPORTED",
+  "a vendor action may be refused as BAD_TYPE or BAD_VENDOR, a vendor stats request as BAD_STAT or BAD_VENDOR; a buffer id that was already "
+  "used must be refused as BUFFER_EMPTY, one that was never issued (zero, out of range) as BUFFER_UNKNOWN; a flow-mod with an unknown action type may be refused as BAD_ACTION or FLOW_MOD_FAILED/UNSUPPORTED",
   "error data must be a prefix of the offending request of at least min(64, its length) bytes",
   "frames are plain Ethernet II frames with ethertype 0x88b5; flows use in_port/dl_src/dl_dst/dl_type only; counters are not judged once "
   "two equal-priority flows covered a frame, or after OFPP_TABLE/NORMAL/LOCAL outputs or non-output actions were executed",
@@ -84,7 +84,9 @@ ASYNC = (cb.OFPT_PACKET_IN, cb.OFPT_FLOW_REMOVED, cb.OFPT_PORT_STATUS, cb.OFPT_E
 RESPONSES = (cb.OFPT_ERROR, cb.OFPT_ECHO_REPLY, cb.OFPT_FEATURES_REPLY, cb.OFPT_GET_CONFIG_REPLY, cb.OFPT_STATS_REPLY,
              cb.OFPT_BARRIER_REPLY, cb.OFPT_QUEUE_GET_CONFIG_REPLY)
 
-E_BUF = {(cb.OFPET_BAD_REQUEST, cb.OFPBRC_BUFFER_UNKNOWN), (cb.OFPET_BAD_REQUEST, cb.OFPBRC_BUFFER_EMPTY)}
+# OF 1.0: BUFFER_EMPTY "specified buffer has already been used", BUFFER_UNKNOWN "specified buffer does not exist"
+E_BUF_USED = {(cb.OFPET_BAD_REQUEST, cb.OFPBRC_BUFFER_EMPTY)}
+E_BUF_UNKNOWN = {(cb.OFPET_BAD_REQUEST, cb.OFPBRC_BUFFER_UNKNOWN)}
 E_BADACT = {(cb.OFPET_BAD_ACTION, cb.OFPBAC_BAD_TYPE)}
 E_VENDACT = {(cb.OFPET_BAD_ACTION, cb.OFPBAC_BAD_TYPE), (cb.OFPET_BAD_ACTION, cb.OFPBAC_BAD_VENDOR),
              (cb.OFPET_BAD_ACTION, cb.OFPBAC_BAD_VENDOR_TYPE)}
@@ -577,7 +579,7 @@ class _Run(object):
     definite = set()
     root = None
     if bogus:
-      definite |= E_BUF
+      definite |= E_BUF_USED if bkind == "used" else E_BUF_UNKNOWN
     if errs and not is_del:
       definite |= errs | E_UNSUP
     if special:
@@ -653,7 +655,7 @@ class _Run(object):
     bogus = bkind not in ("none", "live")
     definite = set()
     if bogus:
-      definite |= E_BUF
+      definite |= E_BUF_USED if bkind == "used" else E_BUF_UNKNOWN
     if errs:
       definite |= errs
     if bogus:
@@ -1231,8 +1233,28 @@ def _refusal_grid():
           yield o
 
 
+def _buffer_code_grid():
+  """buffers are handed out by misses, released in every order, then a released / never issued / zero id is named by a
+  packet-out or flow-mod: BUFFER_EMPTY for a used one, BUFFER_UNKNOWN otherwise"""
+  frames = [{"o": "frame", "port": 1, "dst": 1, "src": 0, "len": 64}, {"o": "frame", "port": 2, "dst": 2, "src": 1, "len": 80},
+            {"o": "frame", "port": 0, "dst": 0, "src": 1, "len": 100}]
+  for nb in (1, 2, 3):
+    for order in ([0], [0, 0], [1], [1, 0], [2], [2, 1], [2, 1, 0], [0, 0, 0], [1, 1]):
+      if len(order) > nb or max(order) >= nb:
+        continue
+      pre = [{"o": "hello", "xid": 1}] + frames[:nb]
+      for k, i in enumerate(order):
+        pre.append({"o": "packet_out", "xid": 20 + k, "buf": {"k": "live", "i": i}, "acts": [["out", 1, 0]]})
+      pre.append({"o": "barrier", "xid": 30})
+      for buf in ({"k": "used", "i": 0}, {"k": "used", "i": 1}, {"k": "used", "i": 2}, {"k": "unknown", "i": 0}, {"k": "zero"}):
+        yield 3, pre + [{"o": "packet_out", "xid": 40, "buf": buf, "acts": [["out", 2, 0]]}, {"o": "frame", "port": 1, "dst": 1, "src": 1, "len": 60},
+                        {"o": "flow_mod", "xid": 41, "m": 2, "cmd": 0, "buf": buf, "acts": [["out", 1, 0]]}]
+
+
 def _enum(tier):
   xids = [0, 1, 0x80000000, 0xffffffff]
+  for maxb, ops in _buffer_code_grid():
+    yield {"max_buffers": maxb, "miss_send_len": 128, "seg": [], "ops": ops + _PROBES}
   for o in _refusal_grid():
     for x in ((5, 0xffffffff) if tier == "thorough" else (5,)):
       o2 = dict(o)
